@@ -9,6 +9,8 @@ from __future__ import annotations
 import builtins
 import warnings
 
+import polars as pl
+
 import pydiverse.transform as pdt
 from pydiverse.transform import C
 
@@ -295,6 +297,11 @@ def apply_event(tbl, ev, ctx: Ctx):
             rot = names[1:] + names[:1]
             df = df.rename(dict(zip(names, rot)))
             back = dict(zip(rot, names))
+        hidden = len(ev) > 1 and ev[1] == "hidden"
+        if hidden:
+            # ["transfer", "hidden"]: the materialised table carries columns of its own that it hides
+            # again (an extra column, and a twin of its first column that it overwrites)
+            df = df.with_columns(pl.lit(1).alias("extra__"))
         if ctx.built.backend == "polars":
             fresh = pdt.Table(df, name=tbl._ast.name)
         else:
@@ -303,6 +310,11 @@ def apply_event(tbl, ev, ctx: Ctx):
             name = f"mat{ctx.built.n_mat}"
             df.write_database(name, ctx.built.engine, if_table_exists="replace")
             fresh = pdt.Table(name, pdt.SqlAlchemy(ctx.built.engine), name=tbl._ast.name)
+        if hidden:
+            first = df.columns[0]
+            fresh = fresh >> pdt.drop(fresh["extra__"])
+            if first != "extra__":
+                fresh = fresh >> pdt.mutate(**{first: fresh[first]}) >> pdt.select(*[c for c in df.columns if c != "extra__"])
         if back:
             fresh = fresh >> pdt.rename(back)
         return pdt.transfer_col_references(fresh, tbl)
